@@ -2,7 +2,7 @@
     Statements only; proofs in Proofs/Builder_Proofs.v. *)
 From Coq Require Import ZArith QArith Qround Qabs List Lia.
 From SB Require Import Base.Prelude Base.Num Base.F32 Gen.Generated Model.Codec Model.Traj Model.Utils Model.Rth Model.Builder
-  Proofs.Builder_Proofs.
+  Proofs.Builder_Proofs Proofs.Utils_Proofs.
 Import ListNotations.
 Local Open Scope Z_scope.
 
@@ -14,10 +14,11 @@ Definition builder_wf (b : builder) : Prop :=
 Definition builder_duration_of (b : builder) : res Z :=
   tr <- traj_init (bb_bytes b) ;; total_duration_msec tr.
 
-(** init gives a well-formed, empty builder; invalid scales are refused *)
-Theorem builder_init_wf : forall scale flags b,
+(** init gives a well-formed, empty builder; invalid scales are refused
+    (the C parameter is a uint8_t: the scale is never negative) *)
+Theorem builder_init_wf : forall scale flags b, 0 <= scale ->
   builder_init scale flags = Ok b -> builder_wf b /\ builder_duration_of b = Ok 0 /\ bb_scale b = scale.
-Proof. exact Builder_Proofs.builder_init_wf. Qed.
+Proof. exact Builder_Proofs.builder_init_wf'. Qed.
 Print Assumptions builder_init_wf.
 
 Theorem builder_init_invalid : forall scale flags,
@@ -63,13 +64,14 @@ Theorem set_start_after_segment_fails : forall b start,
 Proof. exact Builder_Proofs.set_start_after_segment_fails. Qed.
 
 (** quantisation: a stored coordinate times the scale is within one quantum
-    (plus binary32 rounding of the division) below the requested value *)
+    (plus binary32 rounding of the division, relative to |c|) below the
+    requested value *)
 Theorem quantisation_within_quantum : forall s c v, 0 < s < 128 ->
   scale_coordinate s c = Ok v ->
   -32768 <= v <= 32767 /\
-  (inject_Z (v * s) <= c * (1 + (1 # 8388608)) + (1 # 8388608) /\
-   c * (1 - (1 # 8388608)) - (1 # 8388608) < inject_Z ((v + 1) * s))%Q.
-Proof. exact Builder_Proofs.quantisation_within_quantum. Qed.
+  (inject_Z (v * s) <= c + Qabs' c * (1 # 8388608) + (1 # 8388608) /\
+   c - Qabs' c * (1 # 8388608) - (1 # 8388608) < inject_Z ((v + 1) * s))%Q.
+Proof. exact (Builder_Proofs.quantisation_within_quantum' Utils_Proofs.rnd32_error). Qed.
 Print Assumptions quantisation_within_quantum.
 
 Example builder_example :
@@ -86,3 +88,6 @@ Example builder_example :
   | _ => False
   end.
 Proof. exact Builder_Proofs.builder_example. Qed.
+Print Assumptions builder_init_invalid.
+Print Assumptions set_start_after_segment_fails.
+Print Assumptions builder_example.
